@@ -24,7 +24,8 @@ CONSTANTS Primes,    \* the prime fields, e.g. {7, 11, 13, 46337}
           BigNT,     \* large dealings <<n, t>> (trusted-dealer mode: real Gen, reconstruct, signature aggregation)
           BigDkg,    \* large real DKGs <<n, t>> (C(n, t) must stay small: the cross-check enumerates every t-subset)
           BigChoose, \* large <<n, k>> for chooseKoutOfN (count compared with BinomMul)
-          BigQ       \* prime > every n of BigDkg, field of the verdict model for those
+          BigQ,      \* prime > every n of BigDkg, field of the verdict model for those
+          SeqPlans   \* <<n, t, m, u>>: sequences of key generations on the same instances (Algebra!RunPlan), t < n
 
 VARIABLE st
 
@@ -66,6 +67,11 @@ EmitVectors ==
   /\ \A b \in Big : PrintT(<<"BIGC", ToJson(b)>>)
   /\ \A nt \in BigNT : PrintT(<<"BDEALC", ToJson([n |-> nt[1], t |-> nt[2], classes |-> DealClasses])>>)
   /\ \A nk \in BigChoose : PrintT(<<"BCHOOSEC", ToJson([n |-> nk[1], k |-> nk[2], count |-> BinomMul(nk[1], nk[2])])>>)
+  /\ \A sp \in SeqPlans :
+        LET plan == RunPlan(sp[1], sp[2], sp[3], sp[4])
+            exp  == ExpectedVerdicts(plan, Sample[1], ModelQ) IN
+        PrintT(<<"SEQC", ToJson([plan |-> sp, runs |-> [k \in DOMAIN plan |-> [n |-> plan[k].n, t |-> plan[k].t, pos |-> plan[k].pos,
+                                                                                  off |-> plan[k].off, expect |-> exp[k]]]])>>)
 
 \* the full enumerations are split by the first PreLen coefficients so that TLC's workers share them
 PreLen == 2
@@ -133,6 +139,19 @@ HelperLaws == st.k = "vec" =>
         ModelVerdictT(n, t, pos, off, VerdictPoly(Sample[1], t, BigQ), BigQ) = ModelVerdict(n, t, pos, off, VerdictPoly(Sample[1], t, ModelQ), ModelQ)
   /\ \A nt \in BigDkg : nt[1] < BigQ /\ nt[2] \in 2..nt[1]
   /\ \A nt \in BigNT : nt[2] \in 2..nt[1]
+
+\* sequences of key generations on the same instances: the output of run k is a function of run k's keys only; the must-fail
+\* variant (cache kept across Init) is told apart by every demanded plan, both by a missed detection and by a stale threshold key;
+\* the expected verdict per run is the one of a fresh instance
+SeqLaws == st.k = "vec" =>
+  \A sp \in SeqPlans :
+     LET plan == RunPlan(sp[1], sp[2], sp[3], sp[4]) IN
+     /\ sp[2] < sp[1] /\ sp[4] <= sp[3] /\ sp[3] # sp[1] /\ sp[1] < ModelQ /\ sp[3] < ModelQ
+     /\ RunsLaw(plan, Sample[1], ModelQ)
+     /\ StaleCacheShows(plan, Sample[1], ModelQ)
+     /\ \A k \in DOMAIN plan :
+           ExpectedVerdicts(plan, Sample[1], ModelQ)[k] =
+              ModelVerdict(plan[k].n, plan[k].t, plan[k].pos, plan[k].off, VerdictPoly(Sample[1], plan[k].t, ModelQ), ModelQ)
 
 \* per polynomial: every set of at least t points reconstructs the secret P[1] ...
 ReconstructLaw == st.k = "poly" =>
